@@ -924,3 +924,61 @@ def webentity_id(ctx, rr):
     if not ok:
         rr.fail(ctx.finding('R-ID', clear, clear.node, 'clear() does not rebuild the trie after the reset on every path: the in-memory header '
                             'keeps the old counter or is never written', stmt='clear rebuild'))
+
+
+# ------------------------------------------------------------------------------------------------ R-TRUNC-ORDER
+@rule('R-TRUNC-ORDER')
+def trunc_order(ctx, rr):
+    """when both store files are (re)created, the trie file - where every walk starts - is truncated before the link store file:
+    a crash between the two opens then leaves an empty trie next to an unreferenced link store, never a full trie whose pages
+    point into an empty link store"""
+    P = ctx.P
+    traph = P.require_class('Traph')
+    # file attribute -> storage attribute -> structure class, collected over the facade
+    storage_of, struct_of = {}, {}
+    for u in traph.values():
+        for a in P.own(u, ast.Assign):
+            if len(a.targets) != 1:
+                continue
+            t = a.targets[0]
+            v = a.value
+            if self_attr(t) and isinstance(v, ast.Call) and any(tg.cls in STORAGES and tg.name == '__init__' for tg in P.targets(v)):
+                for x in list(v.args) + [k.value for k in v.keywords]:
+                    if self_attr(x):
+                        storage_of[self_attr(x)] = self_attr(t)
+            if isinstance(t, ast.Attribute) and t.attr == 'file' and self_attr(t.value) and self_attr(v):
+                storage_of[self_attr(v)] = self_attr(t.value)
+            if self_attr(t) and isinstance(v, ast.Call):
+                for tg in P.targets(v):
+                    if tg.cls in ('LRUTrie', 'LinkStore') and tg.name == '__init__':
+                        for x in list(v.args) + [k.value for k in v.keywords]:
+                            if self_attr(x):
+                                struct_of[self_attr(x)] = tg.cls
+    n = 0
+    for u in traph.values():
+        opens = {}
+        for a in P.own(u, ast.Assign):
+            if len(a.targets) == 1 and self_attr(a.targets[0]) and isinstance(a.value, ast.Call) and isinstance(a.value.func, ast.Name) and a.value.func.id == 'open':
+                cls = struct_of.get(storage_of.get(self_attr(a.targets[0])))
+                if cls is None:
+                    raise AnalysisError('R-TRUNC-ORDER: cannot tell which structure the file `self.%s` opened in %s belongs to' % (self_attr(a.targets[0]), u.qual))
+                opens.setdefault(cls, []).append(a)
+        if not opens:
+            continue
+        if set(opens) != {'LRUTrie', 'LinkStore'}:
+            raise AnalysisError('R-TRUNC-ORDER: %s opens only the file of %s' % (u.qual, sorted(opens)))
+        n += 1
+        g = ctx.cfg(u)
+        trie_nodes = {id(a) for a in opens['LRUTrie']}
+
+        def tr(nd, st):
+            return True if id(nd.ast) in trie_nodes and nd.kind == 'stmt' else st
+        IN = solve_forward(g, False, tr, lambda lab, st: st, lambda a, b: a and b)
+        for a in opens['LinkStore']:
+            nid = [nd.id for nd in g.nodes if nd.ast is a and nd.kind == 'stmt']
+            ok = bool(nid) and all(IN.get(i, True) for i in nid)
+            rr.ob(ctx.where(u, a), '%s: the link store file is (re)opened only after the trie file' % u.qual, ok=ok)
+            if not ok:
+                rr.fail(ctx.finding('R-TRUNC-ORDER', u, a, '%s opens (and, when creating, truncates) the link store file before the trie file: a crash between the two leaves the old trie '
+                                    'with its pages pointing into an empty link store, and the folder reopens without complaint but link queries fail' % u.qual))
+    rr.require(n, 2, 'functions that (re)open both store files')
